@@ -43,6 +43,8 @@ pub const EDGE_PATTERNS: &[&str] = &[
     r"/éa/(?:[a-z]+)",
     r"/a/(?:[a-z]+)",
     r"/a/(?:[a-z]+)\.x",
+    r"Abc/(?:[a-z]+)",
+    r"a?bc/(?:[a-z]+)",
 ];
 
 /// marker expressions whose character classes contain parentheses (own signature family)
@@ -63,6 +65,7 @@ pub const HAYSTACKS: &[&str] = &[
     "b.example", "B.example", "b.Example", "bXexample", ".example", "/a/b\n", "x/a/b", "/a/b)", "/a/(b", "/a/(c", "/a/(b/x", "/a/)/x", "/a/q/x", "/a/(d",
     "/a/]", "/a/()", "/a/q)/x", "/a/(/x", "/a/b(/y", "/a/]/x", "/a/b/y",
     "/a-b/x", "/a.c/x", "/éé/b", "/éé/1", "/éa/b", "/a/b.x", "/a/bXx",
+    "abc/x", "Abc/x", "bc/x", "ABC/X",
 ];
 
 #[derive(Clone, Debug, Serialize, Deserialize, PartialEq, Eq)]
@@ -197,11 +200,11 @@ impl<'a> Model<'a> {
             .patterns
             .iter()
             .map(|p| {
-                let re = RegexBuilder::new(&format!("^(?:{p})$"))
-                    .case_insensitive(cfg.ignore_case)
-                    .build()
-                    .expect("alphabet pattern compiles");
-                HAYSTACKS.iter().map(|h| re.is_match(h)).collect()
+                // a pattern that does not compile never matches
+                match RegexBuilder::new(&format!("^(?:{p})$")).case_insensitive(cfg.ignore_case).build() {
+                    Ok(re) => HAYSTACKS.iter().map(|h| re.is_match(h)).collect(),
+                    Err(_) => HAYSTACKS.iter().map(|_| false).collect(),
+                }
             })
             .collect();
         Model {
@@ -343,7 +346,16 @@ impl<'a> Model<'a> {
                         }
                     }
                     if t.len() != s.tree.len() {
-                        self.violation("tree-cache-changes-len", "", "len() changed by cache".into(), h);
+                        self.violation("tree-cache-changes-len", "", format!("len() is {} before cache({limit},{level:?}) and {} after", s.tree.len(), t.len()), h);
+                    }
+                    if t.iter_values() != s.tree.iter_values() {
+                        self.violation("tree-cache-changes-iter", "", format!("iter() changed by cache({limit},{level:?})"), h);
+                    }
+                    for p in &self.cfg.patterns {
+                        if t.get(p) != s.tree.get(p) {
+                            self.violation("tree-cache-changes-get", "", format!("get({p:?}) changed by cache({limit},{level:?})"), h);
+                            break;
+                        }
                     }
                 }
             }
